@@ -104,8 +104,8 @@ def decode (s : Bytes) : Decoded :=
   else if op == Gen.proto_CmdCreateFile then withPath Gen.proto_layout_CreateFileCommand "FpLen" .createFile
   else if op == Gen.proto_CmdWriteFile then
     let n := getField Gen.proto_layout_WriteFileCommand "BytesToWrite" data
-    -- the payload is read through a LimitReader: a short stream is not an error by itself
-    .req (.writeFile n (rest.take n)) (rest.drop n)
+    -- a payload that ends before the announced length is a truncated request like any other
+    if rest.length < n then .incomplete else .req (.writeFile n (rest.take n)) (rest.drop n)
   else if op == Gen.proto_CmdDeleteFile then withPath Gen.proto_layout_DeleteFileCommand "FpLen" .deleteFile
   else if op == Gen.proto_CmdMkdir then withPath Gen.proto_layout_MkdirCommand "DpLen" .mkdir
   else if op == Gen.proto_CmdRmdir then withPath Gen.proto_layout_RmdirCommand "DpLen" .rmdir
